@@ -653,6 +653,8 @@ type c07World struct {
 	lastSeq []*Sequence
 	steps   int
 
+	lastForwards, idleSteps int
+
 	mu           sync.Mutex
 	viol         *c07Viol
 	dead         bool
@@ -760,6 +762,12 @@ func (w *c07World) fail(sig, what string, wit map[string]any) {
 	}
 	wit["last_events"] = append([]string(nil), w.events...)
 	w.viol = &c07Viol{Sig: sig, What: what, Wit: wit}
+}
+
+func (w *c07World) forwards() int {
+	w.mu.Lock()
+	defer w.mu.Unlock()
+	return w.cnt["forward_calls"]
 }
 
 func (w *c07World) isDead() bool {
@@ -1233,6 +1241,28 @@ func (w *c07World) step() bool {
 		err = s.processBatch()
 	}()
 	w.steps++
+	// A batch loop iteration that ran no Forward while a live sequence has nothing queued can
+	// never make progress again (only processBatch changes a sequence): the request hangs.
+	if err == nil && !w.isDead() {
+		fw := w.forwards()
+		if fw != w.lastForwards {
+			w.lastForwards, w.idleSteps = fw, 0
+		} else if w.idleSteps++; w.idleSteps >= 3 {
+			s.mu.Lock()
+			for i, q := range s.seqs {
+				if q != nil && len(q.inputs) == 0 && len(q.pendingInputs) == 0 {
+					slot := -1
+					if q.cache != nil {
+						slot = q.cache.Id
+					}
+					s.mu.Unlock()
+					w.fail("stuck-sequence", fmt.Sprintf("sequence %d (slot %d) is live but has no input queued and nothing pending: processBatch ran %d times without calling the model; the request can never finish", i, slot, w.idleSteps), nil)
+					return true
+				}
+			}
+			s.mu.Unlock()
+		}
+	}
 	if err != nil {
 		w.count("processbatch_errors", 1)
 		kind := c07Sanitize(err.Error())
@@ -1412,10 +1442,6 @@ func c07Reference(cfg *c07Cfg, r *c07Req) c07Expect {
 	wins := cfg.windows()
 	var pieces []string
 	for {
-		if r.NumPredict > 0 && e.Eval >= r.NumPredict {
-			e.Reason = int(llm.DoneReasonLength)
-			break
-		}
 		p := len(win) - 1
 		lists := make([][]c07PT, len(wins))
 		for l, ws := range wins {
@@ -1439,6 +1465,11 @@ func c07Reference(cfg *c07Cfg, r *c07Req) c07Expect {
 		if c07ContainsStop(e.Text, r.Stop) != "" {
 			e.StopHit = true
 			e.Reason = int(llm.DoneReasonStop)
+			break
+		}
+		if r.NumPredict > 0 && e.Eval >= r.NumPredict {
+			// the limit is checked before the sampled token is fed back (no shift for it)
+			e.Reason = int(llm.DoneReasonLength)
 			break
 		}
 		if len(win)+1 > cfg.NumCtx {
